@@ -97,6 +97,9 @@ def judge_case(case):
         return judge_seq(case["seq"], case["as_list"])
     if k == "group":
         return judge_group(case["strings"], case["bg"])
+    if k == "translucent_chunk":
+        bgs = [tuple(b) if b else None for b in case["bgs"]]
+        return [v for v in chunk_translucent((case["strings"], bgs))[1] if v["sig"] == case.get("expect_sig", v["sig"])]
     raise ValueError(k)
 
 
@@ -165,6 +168,23 @@ def chunk_strings(args):
     for s in strings:
         _collect(viol, judge_string(s, bg))
     return len(strings), viol
+
+
+def chunk_translucent(args):
+    """The same strings over every background inside one child, so that anything remembered from one background to the
+    next is observable; violations carry the whole chunk as replay context."""
+    strings, bgs = args
+    viol, n = [], 0
+    for bg in bgs:
+        for s in strings:
+            n += 1
+            vs = judge_string(s, bg)
+            if vs and len(viol) < 8:
+                for v in vs:
+                    v["chunk_case"] = {"kind": "translucent_chunk", "strings": list(strings), "bgs": [list(b) if b else None for b in bgs],
+                                       "expect_sig": v["sig"]}
+                viol.extend(vs)
+    return n, viol
 
 
 def chunk_groups(args):
@@ -351,20 +371,18 @@ def run(ctx):
 
     # ---- rgba()/hsla(): alpha x fg x bg ---------------------------------------------------
     fgs = cube(4, offset=ctx.phase)
-    jobs = []
-    for bg in BGS:
-        strs = []
-        for a in ALPHAS:
-            for c in fgs:
-                strs.append("rgba(%d, %d, %d, %s)" % (c + (a,)))
-            for h in ("0", "37", "120", "210.5", "-60", "480"):
-                for s_ in ("0%", "35%", "100%"):
-                    for l_ in ("0%", "22%", "50%", "87.5%", "100%"):
-                        strs.append("hsla(%s, %s, %s, %s)" % (h, s_, l_, a))
-            strs.append("rgba(10%%, 50%%, 90%%, %s)" % a)
-        jobs.append((strs, bg))
+    strs = []
+    for a in ALPHAS:
+        for c in fgs:
+            strs.append("rgba(%d, %d, %d, %s)" % (c + (a,)))
+        for h in ("0", "37", "120", "210.5", "-60", "480"):
+            for s_ in ("0%", "35%", "100%"):
+                for l_ in ("0%", "22%", "50%", "87.5%", "100%"):
+                    strs.append("hsla(%s, %s, %s, %s)" % (h, s_, l_, a))
+        strs.append("rgba(10%%, 50%%, 90%%, %s)" % a)
+    jobs = [(strs[i:i + 60], BGS) for i in range(0, len(strs), 60)]
     n = 0
-    for cnt, viol in ctx.pmap(chunk_strings, jobs):
+    for cnt, viol in ctx.pmap_forked(chunk_translucent, jobs):
         n += cnt
         ctx.add_violations(viol)
     # the same through Color(..., background_context=...)
